@@ -65,6 +65,12 @@ class Boom(Exception):
     pass
 
 
+class EmptyBoom(Boom):
+    """a falsy exception (like an empty error collection): a failure like any other"""
+    def __len__(self):
+        return 0
+
+
 def read_from_foreign_threads():
     """[(kind of thread, what reading time.now gave there)] - called from inside an activity"""
     import concurrent.futures
@@ -119,9 +125,10 @@ def run_history(case, rng):
         foreign_reads = []
 
         deep = rng.random() < 0.4
+        falsy = rng.random() < 0.4
 
         def root(number, kind=kind, log=log, raised=raised, n_roots=n_roots,
-                 nested_log=nested_log, deep=deep):
+                 nested_log=nested_log, deep=deep, falsy=falsy):
             async def body():
                 log.append(('begin', number, time.now))
                 if number == 0 and foreign:
@@ -161,7 +168,7 @@ def run_history(case, rng):
                 await (time + 1)
                 log.append(('mid', number, time.now))
                 if kind == 'fail' and number == n_roots - 1:
-                    exc = Boom(number)
+                    exc = (EmptyBoom if falsy else Boom)(number)
                     raised.append(exc)
                     raise exc
                 await (time + 1)
